@@ -219,7 +219,7 @@ _IO = "truth lives in async object-store/tokio orchestration (crash points, inte
 NOT_APPLICABLE.update({
     "C01": "commit atomicity over crash points: " + _IO,
     "C02": "one winner per version slot is a schedule property over PutMode::Create / rename / lock handlers: " + _IO,
-    "C03": "serializability compares table contents with a serial replay through build_manifest + deletion-file I/O + scans; the conflict matrix alone (check_*_txn over Transaction/Operation with HashMap/HashSet/Vec<Fragment>) needs the 7-minute Kani build of the lance crate per run and heap-heavy types CBMC cannot carry (DESIGN §4 TXN)",
+    "C03": "serializability compares final table contents with a serial replay through build_manifest + deletion-file I/O + scans (async, Arrow); the fragment-level conflict rules of delete/update are decided under C04 and the MemWAL rules under C39, but the module's documented compatibility matrix is not a usable oracle for the remaining rules (it disagrees with the code on e.g. Append after Merge)",
     "C05": "manifest well-formedness over arbitrary histories is produced by build_manifest (~1000 lines over Vec<Fragment>, Schema, HashMap, I/O results); no separable pure kernel",
     "C06": "time-travel immutability is a history property of object-store contents: " + _IO,
     "C07": "restore/row-id uniqueness threads next_row_id through build_manifest and manifests read back from storage: " + _IO,
@@ -233,13 +233,15 @@ NOT_APPLICABLE.update({
     "C18": "stable row id assignment is driven by manifests and inline protobuf blobs inside build_manifest; the pure data structure part is claimed under C34",
     "C22": "vector search exactness is floating-point top-k over Arrow batches, IVF partitions and async execution; CBMC float reasoning does not scale to it",
     "C23": "full-text search goes through tantivy tokenisers, posting lists and WAND over compressed blocks",
-    "C24": "index coverage bookkeeping lives in check_create_index_txn / build_manifest over IndexMetadata (RoaringBitmap, Vec, Uuid) inside the lance crate (7-minute Kani build, heap-heavy types); not encodable within reach",
+    "C24": "index coverage bookkeeping lives in check_create_index_txn / build_manifest over IndexMetadata (RoaringBitmap fragment bitmaps, field lists, Uuid) and prune_updated_fields_from_indices; the Rewrite arm's nested iterator chain did not finish under CBMC in the delete/update probe and the rest is manifest construction around I/O",
     "C25": "the whole encoder/decoder stack with async scheduling; its integer leaf kernels are claimed under C26-C28",
     "C31": "ObjectWriter::poll_write is a hand-written AsyncWrite state machine over object_store multipart futures and a JoinSet; buffering arithmetic is not separable from polling",
     "C38": "cache transparency is a history property over moka caches, Arc<dyn Any> and I/O",
     "C40": "Arrow helpers take and return ArrayRef/RecordBatch (Arc<dyn Array>, buffers, downcast dispatch); JSONB parsing is in the jsonb crate; CBMC cannot carry arrow-rs arrays",
     "C42": "relocatability is a statement about every path written by every writer being relative; decided by I/O",
 })
-_PLANNED = "planned in DESIGN.md §5 but its check is not built yet, so it is not claimed"
-for _p in ["C09", "C36", "C43"]:
-    NOT_APPLICABLE.setdefault(_p, _PLANNED)
+NOT_APPLICABLE.update({
+    "C09": "isolation of branches/tags/clones is a storage-layout property decided by I/O; the only pure kernel, the name grammar (check_valid_branch/check_valid_tag), is a sequence of core::str searches (starts_with/contains/split/chars().all) that CBMC cannot carry: every call would have to be replaced by a model, leaving only the order of the checks as real code -- not built, not claimed",
+    "C36": "catalog behaviour is Lance-table I/O; the object-id helpers (build/parse/split/str_object_id) are String/Vec<String>/join/split code in which every call would have to be modelled -- not built, not claimed",
+    "C43": "schema/projection algebra is recursion over Vec<Field> with HashMap metadata and Arrow conversions; the column-path tokenizer (parse_field_path) runs on String/chars().peekable()/format!, out of reach for CBMC without replacing every call -- not built, not claimed",
+})
